@@ -23,6 +23,7 @@ func runC13(c *Ctx) {
 	c13KeepFlag(c)
 	checkPopOne(c, "pop-structure", routePop)
 	c13StripOnce(c)
+	c14DecoderPurityFrom(c, "ParseRoute")
 }
 
 // c13StripOnce: the routing decision strips the next-hop entry (when keepNextHopRoute is off), so it may be taken only
